@@ -20,8 +20,10 @@ import (
 //     24 h in both backends - never reached by a history, its magnitude is not judged);
 //   * SetNX sets iff absent; CompareAndSwap(old=nil) sets iff absent, otherwise
 //     swaps iff current == old; both (re)define the lifetime from their ttl argument;
-//   * operations of the wrong family on a live key fail with an error and change nothing
-//     (SetHash on a non-hash key is left unspecified and never generated).
+//   * operations of the wrong family on a live key fail with an error and change nothing;
+//     SetHash over a live non-hash value may either do that or replace the value - in both
+//     cases the key keeps its lifetime (only operations carrying a ttl, or creation of an
+//     absent key, define a lifetime).
 //
 // Time: the store reads time.Now() itself. The model never uses its own "now": every
 // operation carries its call/return instants [c,r]; a deadline established by an
@@ -106,6 +108,8 @@ type c13Exp struct {
 	State string // state of the key before the operation (signature material)
 	VKind string // kind of the live value before the operation: none|scalar|list|hash
 	Mark  string // non-vacuity marker of the branch taken
+	Mark2 string // second marker (lifetime observed after a type-changing SetHash)
+	Never bool   // GetExpiration on a never-expiring key: no positive remaining time may be reported
 }
 
 // c13Got is what the store answered.
@@ -124,11 +128,15 @@ type c13Entry struct {
 	implicit bool
 	lo, hi   time.Time
 	class    string // "ttl0" | "short" | "long" | "implicit"
+	retyped  bool   // a SetHash replaced a live value of another family (lifetime must be unchanged)
 }
 
 type c13Model struct {
 	m     map[string]*c13Entry
 	taint map[string]bool
+	// gotErr: error class the store answered for the operation being stepped ("" while
+	// generating). Only consulted where the reference allows two outcomes.
+	gotErr string
 }
 
 func c13NewModel() *c13Model {
@@ -350,10 +358,18 @@ func (m *c13Model) step(op c13Op, c, r time.Time) c13Exp {
 			h2[op.Field] = op.Val
 			e.val = h2
 		} else {
-			// unspecified by the interface (memory re-initialises, Redis refuses): not judged
-			exp.Judge = false
-			m.taint[key] = true
-			delete(m.m, key)
+			// SetHash over a live value of another family. The interface does not say whether
+			// the store refuses (Redis: WRONGTYPE) or replaces the value (memory). Both are
+			// accepted. What a map with expiry fixes either way: SetHash carries no lifetime,
+			// so the LIVE key keeps the lifetime it has (a ttl-0 key stays immortal, a short
+			// key still dies at its deadline) - only an absent key gets the default lifetime.
+			exp.Mark = "sethash-over-live-other-family"
+			if m.gotErr == "error" {
+				exp.Err = "error"
+			} else {
+				e.val = map[string]any{op.Field: op.Val}
+				e.retyped = true
+			}
 		}
 	case "GetHash":
 		if e == nil {
@@ -443,12 +459,20 @@ func (m *c13Model) step(op c13Op, c, r time.Time) c13Exp {
 	case "GetExpiration":
 		if e == nil {
 			exp.Err = "notfound"
-		} else if !e.never && !e.implicit {
+		} else if e.never {
+			exp.Never = true
+		} else if !e.implicit {
 			// remaining = deadline - now, deadline in [lo,hi], now in [c,r]
 			exp.HasD, exp.DLo, exp.DHi = true, e.lo.Sub(r), e.hi.Sub(c)
 		}
 	default:
 		panic("c13 model: unknown op " + op.Kind)
+	}
+	switch op.Kind {
+	case "Get", "Exists", "GetHash", "GetAllHash", "GetExpiration":
+		if cur := m.m[key]; cur != nil && cur.retyped && (st == "expired" || op.Kind == "GetExpiration") {
+			exp.Mark2 = "lifetime-observed-after-retype"
+		}
 	}
 	return exp
 }
@@ -549,6 +573,9 @@ func c13Compare(exp c13Exp, got c13Got) string {
 	}
 	if exp.HasV && !c13Equal(exp.V, got.V) {
 		return "want=value|got=other-value"
+	}
+	if exp.Never && got.D > 0 {
+		return "want=never-expires|got=finite-remaining"
 	}
 	if exp.HasD && (got.D < exp.DLo || got.D > exp.DHi) {
 		return "want=remaining-in-bounds|got=out-of-bounds"
